@@ -20,12 +20,15 @@ def gen_case(rnd, tier: str, i: Any, **over: Any) -> Dict[str, Any]:
     files, truths = {}, {}
     # launch APIs outside the short list the queue-length counters know by name (blocking cudaMemcpy, cudaGraphLaunch ...)
     exotic = rnd.random() < 0.25
+    zero_tie = rnd.random() < 0.3
     for r in range(n_ranks):
         p = gen_sim.random_params(rnd, tier, rank=r, first_step=first_step, avoid_k1=True, n_steps=n_steps, p_zero_launch=rnd.choice([0.0, 0.0, 0.2]),
                                   nested_driver=rnd.random() < 0.35, exotic_launch=exotic,
                                   # known finding K4 (recorded under C03): the call-stack builder behind this analysis loses a host
                                   # thread that shares its (pid, tid) pair with a device stream; its graphs would only re-report that
-                                  pid_tid_clash=False)
+                                  pid_tid_clash=False,
+                                  # a zero-duration kernel and the next kernel of its stream starting in the same instant
+                                  zero_tie=zero_tie)
         p.update(over)
         tr, truth = gen_sim.gen_trace_with_truth(rnd, **p)
         files[f"rank{r}.json"] = tr
@@ -82,7 +85,7 @@ def prepare(case: Dict[str, Any], ctx: Any, res: core.CaseResult, need_causal: b
         m = raw.model(tr["traceEvents"])
         why = wf.well_formed(m, tr["traceEvents"])
         if not why and need_causal:
-            why = wf.causal(m)
+            why = wf.causal(m, zero_len_shared_start_ok=True)
         if why:
             res.discarded, res.discard_reason = True, "out of regime: " + why.split(":")[0][:60]
             return None
